@@ -8,10 +8,12 @@ regenerated into `Gen/C11_Tables.lean`) and `Model/Parse.lean` (mirror of
 input, the number of tokens / map entries / lines is bounded by the input size, every token
 spelling is at most `maxTokenSize` bytes, recursion depth is bounded.  The Go run-time facts
 (nil dereference, stack overflow, hang) are exhibited by the differential check only.
-Helper lemmas: `Proof/TokenLemmas.lean`, `Proof/ParseLemmas.lean`.
+Helper lemmas: `Proof/TokenLemmas.lean`, `Proof/Parse*Lemmas.lean` (progress),
+`Proof/ParseWf*.lean` (well-formedness of the ASTs).
 -/
 import WuffsVerif.Proof.TokenLemmas
 import WuffsVerif.Proof.ParseTopLemmas
+import WuffsVerif.Proof.ParseWfTop
 
 namespace WuffsVerif.Props.C11
 open WuffsVerif.Token WuffsVerif.Gen.C11
@@ -214,51 +216,78 @@ theorem parse_progress (env : Env) (e t b : Nat) :
   ⟨core_good env _ e t b rfl, stmt_good env e t b, good1_parseTopLevelDecl env e t b⟩
 
 open WuffsVerif.Parse in
-theorem failHere_bind_not_ok {α β : Type} (f : α → P β) (s : PState) (r : β × PState) :
-    StateT.bind (failHere : P α) f s ≠ .ok r := by
-  unfold failHere curLine
-  cases h : s.src <;> simp [bind, StateT.bind, get, getThe, MonadStateOf.get, StateT.get,
-    pure, StateT.pure, Except.bind, Except.pure, throw, throwThe, MonadExceptOf.throw, StateT.lift, h]
+/-- **parse_no_stuck_operand.**  The model-level statement of "no nil dereference later": every
+AST that the model of `parse.Parse` returns, for every token list and option set, is
+well-formed (`Parse.wf`, `Proof/ParseWfDefs.lean`): at every node of the tree the children that
+its kind requires are present — an argument has its value, an assertion / `if` / `while` its
+condition, an assignment its right-hand side (and, unless it is a bare `expr` statement, its
+left-hand side), a `const` its type and value, a field / `var` its type, a `func` its `args`
+struct, an `io_bind` / `io_limit` their `io`, `data` / `limit`, `history_position` arguments,
+a `return` / `yield` its value, an `iterate` its `unroll` count and only assignments
+`variable = expr`; an `Expr` node has the operands of its operator (leaf; call, selector and
+slice: the receiver; index: receiver and index; unary X-form: the operand; binary X-form: both;
+associative X-form: at least two; no other operator occurs); a `TypeExpr` the inner type
+(and, for arrays, the length) its decorator requires — and no child list has a nil entry.
+These are exactly the children that lang/ast's typed accessors and their users in lang/check
+and internal/cgen dereference without a nil check. -/
+theorem parse_no_stuck_operand (env : Env) (toks : List Tok) (file : Node)
+    (h : parseFile env toks = .ok file) : wf file = true :=
+  parseFile_wf env toks file h
 
 open WuffsVerif.Parse in
-/-- **parse_no_stuck_operand (partial).**  The model-level statement of "no nil dereference
-later" for the construct that crashed the real parser: every assignment that
-`parseIterateAssignNode` returns has a left-hand side, it is a plain variable, the operator is
-`=` and the value is effect-free — `iterate (x)(…)` is an error, not a node with a nil child.
-Missing for the full `parse_no_stuck_operand`: the same "children required by the kind are
-present" statement for every node kind built by the other parser functions
-(OPEN: needs a postcondition logic like `Good` for values; the differential AST dump covers it
-by sampling only). -/
-theorem parse_no_stuck_operand_partial (env : Env) (pe : P Node) (s s' : PState) (n : Node)
-    (h : (parseIterateAssignNode env pe).run s = .ok (n, s')) :
-    n.lhs.isNil = false ∧ n.id0 = IDEq ∧ n.lhs.id0 = 0 ∧ effectOf n.rhs = 0 := by
-  unfold parseIterateAssignNode at h
-  simp only [StateT.run, bind, StateT.bind, Except.bind] at h
-  cases hr : parseAssignNode env pe s with
-  | error e => simp [hr] at h
-  | ok p =>
-    obtain ⟨m, s1⟩ := p
-    simp only [hr] at h
-    by_cases h1 : (m.id0 != IDEq) = true
-    · simp only [h1, ite_true] at h
-      exact absurd h (failHere_bind_not_ok _ _ _)
-    · by_cases h2 : m.lhs.isNil = true
-      · simp only [h1, h2, ite_true] at h
-        simp at h
-        exact absurd h (failHere_bind_not_ok _ _ _)
-      · by_cases h3 : (m.lhs.id0 != 0) = true
-        · simp [h1, h2, h3] at h
-          exact absurd h (failHere_bind_not_ok _ _ _)
-        · by_cases h4 : (effectOf m.rhs != 0) = true
-          · simp [h1, h2, h3] at h
-            simp at h3 h4
-            simp [h3, h4] at h
-            exact absurd h (failHere_bind_not_ok _ _ _)
-          · simp at h1 h2 h3 h4
-            simp [h1, h2, h3, h4, pure, StateT.pure, Except.pure] at h
-            obtain ⟨hn, _⟩ := h
-            subst hn
-            exact ⟨by simpa using h2, h1, h3, h4⟩
+/-- The same for every function of the expression cycle (`pExpr` is the public entry point
+`parse.ParseExpr`) and of the statement cycle, at every depth budget, and for a top-level
+declaration: whatever they return is present and well-formed. -/
+theorem parse_no_stuck_operand_parts (env : Env) (e t b : Nat) :
+    CoreWf env e t b ∧ StmtWf env e t b ∧ Post (parseTopLevelDecl env e t b) WfN :=
+  ⟨core_wf env _ e t b rfl, stmt_wf env e t b, post_parseTopLevelDecl env e t b⟩
+
+open WuffsVerif.Parse in
+/-- The construct that crashed the real parser: every assignment that `parseIterateAssignNode`
+returns has a left-hand side, it is a plain variable, and the operator is `=` — so
+`iterate (x)(…)` is an error, not a node with a nil child.  (Corollary of the lemma used for
+`parse_no_stuck_operand`; formerly `parse_no_stuck_operand_partial`.) -/
+theorem parse_iterate_assign_has_lhs (env : Env) (pe : P Node) (hpe : Post pe WfN)
+    (s s' : PState) (n : Node) (h : (parseIterateAssignNode env pe).run s = .ok (n, s')) :
+    n.lhs.isNil = false ∧ n.id0 = IDEq ∧ n.lhs.id0 = 0 ∧ n.kind = KAssign := by
+  have := (post_parseIterateAssignNode env pe hpe).post s n s' h
+  simp [iterAssignOK] at this
+  exact ⟨this.2.1.1.2, this.2.2, this.2.1.2, this.2.1.1.1⟩
+
+open WuffsVerif.Parse in
+/-- non-vacuity of `wf`: it does reject the tree the unrepaired parser built for
+`iterate (x)(length: 1, advance: 1, unroll: 1) {}` (an `iterate` whose assignment has no
+left-hand side) … -/
+example : wf (.mk KIterate 0 0 0 0 0 (newExpr 0 0 1 .nil .nil .nil []) .nil .nil
+    [newAssign IDEq .nil (newExpr 0 0 1024 .nil .nil .nil [])] [] []) = false := by
+  decide
+
+open WuffsVerif.Parse in
+/-- … and a binary expression without its right operand, an index without its index. -/
+example : wf (newExpr 0 (binaryForm IDPlus) 0 (newExpr 0 0 1024 .nil .nil .nil []) .nil .nil []) = false ∧
+    wf (newExpr 0 IDOpenBracket 0 (newExpr 0 0 1024 .nil .nil .nil []) .nil .nil []) = false ∧
+    wf (newExpr 0 (binaryForm IDPlus) 0 (newExpr 0 0 1024 .nil .nil .nil []) .nil
+      (newExpr 0 0 1025 .nil .nil .nil []) []) = true := by
+  decide +kernel
+
+open WuffsVerif.Parse in
+/-- **Model constants = lang/ast constants** (regenerated into `Gen/C11_Tables.lean` on every
+run): node kinds, flags, effects and the three depth limits / `MaxImplements`. -/
+theorem ast_constants_agree :
+    KArg = astKArg ∧ KAssert = astKAssert ∧ KAssign = astKAssign ∧ KChoose = astKChoose ∧
+    KConst = astKConst ∧ KExpr = astKExpr ∧ KField = astKField ∧ KFile = astKFile ∧
+    KFunc = astKFunc ∧ KIOManip = astKIOManip ∧ KIf = astKIf ∧ KIterate = astKIterate ∧
+    KJump = astKJump ∧ KRet = astKRet ∧ KStatus = astKStatus ∧ KStruct = astKStruct ∧
+    KTypeExpr = astKTypeExpr ∧ KUse = astKUse ∧ KVar = astKVar ∧ KWhile = astKWhile ∧
+    FlagsPublic = astFlagsPublic ∧ FlagsHasBreak = astFlagsHasBreak ∧
+    FlagsHasContinue = astFlagsHasContinue ∧ FlagsHasDeepBreak = astFlagsHasDeepBreak ∧
+    FlagsHasDeepContinue = astFlagsHasDeepContinue ∧ FlagsClassy = astFlagsClassy ∧
+    FlagsSubExprHasEffect = astFlagsSubExprHasEffect ∧ FlagsPrivateData = astFlagsPrivateData ∧
+    FlagsChoosy = astFlagsChoosy ∧ FlagsHasChooseCPUArch = astFlagsHasChooseCPUArch ∧
+    EffectImpure = astEffectImpure ∧ EffectImpureCoroutine = astEffectImpureCoroutine ∧
+    MaxExprDepth = astMaxExprDepth ∧ MaxTypeExprDepth = astMaxTypeExprDepth ∧
+    MaxBodyDepth = astMaxBodyDepth ∧ MaxImplements = astMaxImplements := by
+  decide
 
 /-- non-vacuity: the empty token list parses to an empty file. -/
 example : ∃ n, Parse.parseFile ⟨{}, {}⟩ [] = .ok n := by
